@@ -270,8 +270,25 @@ pub fn sweep(cases: Arc<Vec<Case>>, cfg: Arc<DevConfig>, f32_full: bool) -> DevR
             fs.push(DevFinding { case: ci, kind: "ctor-timeout", detail: "constructor exceeded the per-call time limit".into(), seed, pos: 0, word: 0, script: vec![], requests: 0 });
         } else {
             let pos = if p >= 1000 { p - 1000 } else { p };
-            let (script, _) = base_script(seed, pos, Some(t.aux));
-            fs.push(DevFinding { case: ci, kind: "timeout", detail: format!("one sample() call ran longer than {:?}", cfg.per_call_limit), seed, pos, word: t.aux, script, requests: 0 });
+            let (script, cont) = base_script(seed, pos, Some(t.aux));
+            // confirm on a fresh thread with its own clock (a descheduled worker on a loaded machine must not count)
+            let case = cases[ci].clone();
+            let sc = script.clone();
+            let (tx, rx) = std::sync::mpsc::channel();
+            std::thread::spawn(move || {
+                let t0 = std::time::Instant::now();
+                if let Some(s) = (case.build)() {
+                    let _ = run_cont(&*s, &sc, cont);
+                }
+                let _ = tx.send(t0.elapsed());
+            });
+            let confirmed = match rx.recv_timeout(cfg.per_call_limit * 4) {
+                Ok(el) => el > cfg.per_call_limit,
+                Err(_) => true,
+            };
+            if confirmed {
+                fs.push(DevFinding { case: ci, kind: "timeout", detail: format!("one sample() call ran longer than {:?}", cfg.per_call_limit), seed, pos, word: t.aux, script, requests: 0 });
+            }
         }
     }
     DevResult { findings: fs, stats, n_jobs }
